@@ -64,6 +64,8 @@ type FuncContract struct {
 	PanicsIf    []Clause
 	Extern      bool           // declared in an ext (.gowp) file
 	Ghosts      []GhostLoopVar // function-level ghost variables
+	Durable     bool           // a durable step: callers assert their crash invariant after it
+	Crash       []Clause       // crashstates: holds at every crash point inside the function
 }
 
 type DefineSpec struct {
@@ -117,6 +119,7 @@ var labelRe = regexp.MustCompile(`^([A-Za-z][A-Za-z0-9_\-]*):(?:[^:]|$)`)
 var clauseKW = map[string]bool{
 	"requires": true, "ensures": true, "modifies": true, "loop": true, "assume-only": true, "pure": true,
 	"inline": true, "assert": true, "assume": true, "props": true, "noframe": true, "fresh": true, "panics_if": true, "ghost": true,
+	"durable": true, "crashstates": true,
 }
 var topKW = map[string]bool{
 	"func": true, "define": true, "abstract": true, "sort": true, "axiom": true, "ghost": true, "package": true, "ignore": true, "implements": true,
@@ -382,6 +385,14 @@ func ParseSpecFile(path string, pkgPath string) (*SpecFile, error) {
 			}
 			cur.Modifies = append(cur.Modifies, locs...)
 			cur.ModAll = cur.ModAll || all
+		case "durable":
+			cur.Durable = true
+		case "crashstates":
+			cl, err := mkClause(rest, it.line)
+			if err != nil {
+				return nil, err
+			}
+			cur.Crash = append(cur.Crash, cl)
 		case "assume-only":
 			cur.AssumeOnly = true
 		case "pure":
